@@ -32,6 +32,10 @@ class AbortClient(RunnerClient):
             return (False, True, ab, flags)
         if ev.kind == "enter" and self.callee_is(ev, "_RetryState.check_abort"):
             return (True, True, ab, flags)
+        if ev.kind == "enter" and self.callee_is(ev, "_RetryState._handle_failure"):
+            # the backoff is decided here (strategy, budget, `retry` event - user code runs): the poll that
+            # guards the sleep must come after it
+            return (ph, False, ab, flags)
         if ev.kind == "raise":
             exc = ev.node.info["exc"]
             if exc is not None and isinstance(exc, ast.Call) and ast.unparse(exc.func).endswith("AbortRetryError"):
@@ -51,7 +55,7 @@ class AbortClient(RunnerClient):
                     what = cat
             if what in ("sleeper", "sleep_handler", "before_sleep"):
                 if not po:
-                    flags = flag1(flags, f"{what} reached without an abort poll after the failed attempt")
+                    flags = flag1(flags, f"{what} reached without an abort poll after the failed attempt's backoff was decided")
                 if ab:
                     flags = flag1(flags, f"{what} called after an abort")
                 return (ph, po, ab, flags)
